@@ -33,11 +33,13 @@ RULE = (
     "machine traced. Mode 'real': real TDVP numerics, all Lindblad noise kinds, tape-seeded RNG, buggified thresholds. Mode "
     "'stub': no-op evolution and an adversarial squared-norm (smooth / drop / plateau / non-monotone / tie / inconsistent; "
     "crossings at step boundaries, right after a jump, mid-bracket; <= 8 crossings per step). Non-trivial iff >= 1 jump "
-    "happened; distinct by (mode, per-step jump-count vector capped at 3, boundary-proximity class, adversary shape mix)."
+    "happened; distinct by (mode, per-step jump-count vector capped at 3, boundary-proximity class, adversary shape mix). 30 % of "
+    "the runs autosave after every unit of work, crash after a tape-chosen autosave (70 % biased to one written while a jump "
+    "search is active), resume (once more with p = 0.35) and are judged on the concatenated history."
 )
 COMPONENTS = {
     "real": ["NoisyMPSBackendImpl.sweep_complete/timestep_complete/do_random_quantum_jump/set_jump_threshold", "MPSBackendImpl.progress/fill_results", "BrentsRootFinder", "MPSBackend.run/_run", "pulser sampling", "mode real: all TDVP numerics"],
-    "stubbed": ["clock", "uuid", "RNG seeding", "mode stub: MPSBackendImpl._evolve (no-op) and MPS.norm (adversary)", "buggify: random.uniform inside set_jump_threshold returns a value within 1e-12 of 0 or of the bound in a random subset of runs"],
+    "stubbed": ["clock", "uuid", "RNG seeding", "process death + restart for the crash/resume histories (the autosave file bytes are handed to a fresh incarnation; mode stub: the adversary is rolled back to its state at that autosave)", "mode stub: MPSBackendImpl._evolve (no-op) and MPS.norm (adversary)", "buggify: random.uniform inside set_jump_threshold returns a value within 1e-12 of 0 or of the bound in a random subset of runs"],
 }
 AUTOSAVE_DT = 11.0
 PROBES = ["jump", "two_jumps_in_one_step", "three_plus_jumps_in_one_step", "jump_within_1ns_of_step_boundary", "step_shorter_than_tolerance", "exact_tie_norm_equals_threshold", "inconsistent_revisit", "no_jump_run", "buggified_threshold", "search_longer_than_5_sweeps", "stub_runs", "real_runs", "resume_during_active_search", "resume_between_searches", "second_crash"]
@@ -244,6 +246,8 @@ class SaveLog:
             if prev is not None:
                 prev(name, data)
             finder = next((e[1]["finder"] for e in reversed(self.trace.ev) if "finder" in e[1]), False)
+            if self.items and self.items[-1]["data"] == data:
+                return  # the same snapshot becoming visible under its final name
             self.items.append({"data": data, "cut": len(self.trace.ev), "pcall": probe.calls, "finder": bool(finder), "rng": rng_snapshot(), "script": self.script.snapshot() if self.script is not None else None})
 
         inc.disk.on_file_completed = done
